@@ -108,6 +108,10 @@ pub struct UnmockCase {
     /// occupies a `_` slot of the unmock_with list) is declared before method i
     #[serde(default)]
     pub static_before: u8,
+    /// the mock also has an ordered (next_call) clause on an unrelated extra method: the kind of clause used for
+    /// one method must not change how another method's calls are resolved
+    #[serde(default)]
+    pub extra_ordered_clause: bool,
 }
 
 impl UnmockCase {
@@ -219,6 +223,9 @@ pub fn source(c: &UnmockCase) -> String {
     if c.prior_error {
         regs.push("_".to_string());
     }
+    if c.extra_ordered_clause {
+        regs.push("_".to_string());
+    }
     s.push_str(&format!(
         "#[unimock(api=M, unmock_with=[{}])]\npub trait Tr {{\n",
         regs.join(", ")
@@ -241,6 +248,9 @@ pub fn source(c: &UnmockCase) -> String {
     }
     if c.prior_error {
         s.push_str("    fn zz(&self) -> u32;\n");
+    }
+    if c.extra_ordered_clause {
+        s.push_str("    fn oo(&self) -> u32;\n");
     }
     s.push_str("}\n\n");
     if c.recursion.is_some() {
@@ -331,6 +341,9 @@ pub fn source(c: &UnmockCase) -> String {
         clauses.push(format!(
             "M::m{t}.each_call(&|m| m.func(|{pat}, _| false)).returns(0u32)"
         ));
+    }
+    if c.extra_ordered_clause {
+        clauses.push("M::oo.next_call(&|m| m.func(|_, _| true)).returns(1u32)".to_string());
     }
     let ctor = if c.partial { "new_partial" } else { "new" };
     let clause = match clauses.len() {
@@ -490,6 +503,7 @@ pub fn judge(c: &UnmockCase, line: &str) -> Result<CaseInfo, String> {
             "provided+unmentioned->default-body",
         )
         .class_if(c.prior_error, "after-a-caught-mock-error")
+        .class_if(c.extra_ordered_clause, "unrelated-ordered-clause-in-the-same-mock")
         .class_if(c.static_before & ((1u16 << c.methods.len().min(8)) - 1) as u8 != 0, "receiver-less-provided-fn-in-the-trait")
         .class_if(m.mut_recv, "recv:&mut self")
         .class_if(m.asy != Asy::Sync, "async")
@@ -568,11 +582,11 @@ pub fn case_strategy() -> impl Strategy<Value = UnmockCase> {
         any::<bool>(),
         proptest::option::weighted(0.35, 0..=6u8),
         proptest::bool::weighted(0.3),
-        prop_oneof![2 => Just(0u8), 1 => any::<u8>()],
+        (prop_oneof![2 => Just(0u8), 1 => any::<u8>()], proptest::bool::weighted(0.3)),
     )
-        .prop_map(|(methods, t, partial, mention_unmatched, recursion, prior_error, static_before)| {
+        .prop_map(|(methods, t, partial, mention_unmatched, recursion, prior_error, (static_before, extra_ordered_clause))| {
             let target = t as usize % methods.len();
-            UnmockCase { methods, target, partial, mention_unmatched, recursion, prior_error, static_before }
+            UnmockCase { methods, target, partial, mention_unmatched, recursion, prior_error, static_before, extra_ordered_clause }
         })
 }
 
